@@ -167,4 +167,47 @@ theorem fromRegex_default_of_grammar {s : List Char} {e : Rx Char} {ts : List (T
   unfold fromRegex parseRegex
   simp only [hs, hlex, Bool.false_eq_true, if_false, hp, hvalid]
 
+/-! ### the empty and the blank-only string (fix 9e58d22) -/
+
+/-- A string of blanks spells the empty token list. -/
+theorem renders_blanks {s : List Char} (h : ∀ c ∈ s, isBlank c = true) : Renders [] s := by
+  induction s with
+  | nil => exact .nil
+  | cons c r ih =>
+    exact .blank c (h c (by simp)) (ih (fun c' h' => h c' (List.mem_cons_of_mem _ h')))
+
+/-- `parse_regex` on the empty string / a string of blanks: `from_string_literal("")` with a fresh
+counter, whatever the alphabet. -/
+theorem parseRegex_blanks {s : List Char} (h : ∀ c ∈ s, isBlank c = true) (syms : List Char) :
+    parseRegex s syms = .ok (Builder.fromStringLiteral ([] : List Char) 0).1 := by
+  unfold parseRegex
+  by_cases hs : s.isEmpty = true
+  · simp only [hs, if_true]
+  · simp only [hs, Bool.false_eq_true, if_false, lex_renders (renders_blanks h), parseTokens,
+      List.isEmpty_nil, if_true]
+
+/-- The `{ε}` builder as an NFA over any alphabet passes the constructor's validation. -/
+theorem epsNFA_valid (syms : List α) :
+    ((Builder.fromStringLiteral ([] : List α) 0).1.toNFA syms).validate = .ok () :=
+  Builder.toNFA_valid (syms := syms) (Builder.eps_spec (α := α) 0).1 (Builder.rows_eps 0)
+    (Builder.syms_eps (fun x => x ∈ syms) 0)
+
+/-- `NFA.from_regex` on the empty string / a string of blanks, explicit alphabet. -/
+theorem fromRegex_blanks {s : List Char} (h : ∀ c ∈ s, isBlank c = true) (syms : List Char)
+    (hres : ∀ c ∈ syms, isReserved c = false) :
+    fromRegex s (some syms) = .ok ((Builder.fromStringLiteral ([] : List Char) 0).1.toNFA syms) := by
+  have hany : syms.any isReserved = false := by
+    rw [List.any_eq_false]
+    intro c hc
+    simp [hres c hc]
+  unfold fromRegex
+  simp only [hany, Bool.false_eq_true, if_false, parseRegex_blanks h, epsNFA_valid]
+
+/-- `NFA.from_regex` on the empty string / a string of blanks, default alphabet. -/
+theorem fromRegex_default_blanks {s : List Char} (h : ∀ c ∈ s, isBlank c = true) :
+    fromRegex s none =
+      .ok ((Builder.fromStringLiteral ([] : List Char) 0).1.toNFA (defaultSyms s)) := by
+  unfold fromRegex
+  simp only [parseRegex_blanks h, epsNFA_valid]
+
 end AV.Rx
